@@ -223,6 +223,9 @@ def draw_weight(rng, kind):
         return float(rng.choice(BIG_WEIGHTS))
     if kind == "big_i":
         return rng.choice(BIG_WEIGHTS[:2])
+    if kind == "int_mid":
+        # fits int16, the square does not (nor does a sum of a few of them): arrays of these travel as int16 / int32
+        return rng.choice([150, 181, 200, 250])
     if kind == "int":
         return rng.randint(1, 4)
     if kind == "dyadic":
@@ -242,6 +245,8 @@ def pick_dtype(rng, weight_kind):
         return "float64"
     if weight_kind == "big_i":
         return rng.choice(["int64", "int64", None])
+    if weight_kind == "int_mid":
+        return rng.choice(["int64", "int64", "float64", "int32"])
     return rng.choice(["float64", "float64", None])
 
 
